@@ -90,6 +90,8 @@ class SV(ASTNode):
     ti: tuple[int, ...] = ()
     tsi: tuple[str, int] | None = None
     nc: int = field(default=0, compare=False)
+    value: int = 0                                         # named like parameters of the library's own (de)serialization functions
+    cls: int = 0
     kw: int = field(default=0, kw_only=True)               # keyword-only
     hid: int = field(default=0, repr=False, hash=False)     # other dataclass options that have no bearing on serialization
 
@@ -138,6 +140,8 @@ VALUES = {
     "tsi": [None, ("a", 1), ("", -1)],
     "nc": [0, 5],
     "kw": [0, 3],
+    "value": [0, 6],
+    "cls": [0, 7],
     "hid": [0, 4],
 }
 
